@@ -108,6 +108,21 @@ CLAIMED.update({
               "1e-3). Scenario space sampled with stratification."),
         technique="TLA+ spec + TLC exhaustive; spec-enumerated scenarios executed on the code; code->spec conformance",
         design_ref="4/C07"),
+    "C08": dict(
+        engine="Likelihood", category="other",
+        text=("TLC enumerates the case structure of specs/Likelihood.tla (Gaussian; Bernoulli outcome x interior / saturated "
+              "prediction; right-censored Weibull: censored / observed x event before / at / after the reference time x four shape "
+              "classes incl. exactly 1 and 3 x with / without space shifts), builds the expected negative log-density of each case as "
+              "a symbolic term and checks CensoredOnlySurvival and Finite; each case is instantiated with seeded numeric points, the "
+              "real distribution families are evaluated (single entries, per-feature scales, two competing events with opposite "
+              "censoring flags) and compared with the evaluated term; TLC checks that every case conforms and that the records cover "
+              "the case space (LikelihoodTrace.tla); model-level variables (individual priors, Gaussian attachment over observed "
+              "entries, event attachment with an event moved before the reference time) are compared entry by entry with the same terms."),
+        note=("Level 'other': the decision 'equals the density' rests on the generic float64 term evaluator (harness/terms.py) applied "
+              "to terms stated in TLA+; TLC decides the case structure, coverage and the structural invariants. Tolerance 2e-4 "
+              "relative (5e-4 Weibull)."),
+        technique="TLA+ symbolic terms + case enumeration by TLC; numeric instantiation on the code; code->spec conformance",
+        design_ref="4/C08, 2.4, 6"),
     "C11": dict(
         engine="Saem", category="model_checking",
         text=("TLC checks LogExactlyWhenDue, LogReadOnly, AcceptedCompletes and Termination of specs/Saem.tla over every "
@@ -183,6 +198,7 @@ CLAIMED.update({
 })
 
 ENGINES = {
+    "Likelihood": dict(path="specs/Likelihood.tla", kind="TLA+ symbolic negative log-densities with Weibull case structure (+ LikelihoodTrace.tla)"),
     "Masking": dict(path="specs/Masking.tla", kind="TLA+ extended-real algebra of masked tensors (+ MaskingTrace.tla)"),
     "Cohort": dict(path="specs/Cohort.tla", kind="TLA+ scenario table of cohort transformations (+ CohortTrace.tla)"),
     "MStep": dict(path="specs/MStep.tla", kind="TLA+ closed forms of the maximization rules (+ MStepTrace.tla)"),
